@@ -33,10 +33,28 @@ Per generated module set (check/props/schema_gen.py, plus the feature schemas be
           prefixes at once, many load orders; absolute paths through those import prefixes from the users' nodes
           (harness/go/c17.go `findrev`): a pinned import denotes exactly that revision's entry tree (identified by
           pointer), an unpinned one the latest revision's; a path that exists only in another revision finds nothing.
+  choice-in-choice (tied to the model like every other set) constructed family choice_in_choice_schemas: a choice grafted
+          DIRECTLY below a choice -- by an augment whose body is a choice or a uses of a grouping with a choice at its top
+          level (also through a second grouping) --, host choices at the module top, in containers, lists, rpc
+          input/output, notifications, explicit cases and shorthand containers, grafted by another module, the module
+          itself or its submodule, alone or beside leaves/cases/a second choice, optionally followed by a further augment
+          that reaches the grafted choice (or one of its shorthand members) through the implicit cases.  A set of a
+          constructed family that the implementation rejects while the model processes it is a violation (an augment
+          path, the absolute schema path of an existing node, was not found).
+  big     (implementation only: the model has no memo tables, SIZE is outside it) module sets tied above are padded with
+          tens of thousands of fresh-named nodes (leaves, uses of an empty grouping, containers, a mix) -- counts just
+          below, at and above 2^16 (thorough: 2^17, 3*2^16 too) -- in the body of a module, in one of its containers or
+          lists, or in a new module sorting before / after all others (Process converts in name order) that has its own
+          choice with shorthand members, rpc and augments and is imported by one of the set's modules: every lookup must
+          return what it returned without the padding, the padding module's nodes what they name by construction, and
+          the harness' sweep find17Sweep (absolute path of every node from its module's root entry, from the node, from a
+          sibling subtree and from the root entries of importing modules: pointer identity; '..' up to the root entry the
+          walk started from; '../name') must be clean.
   oracle  the position the query was built from (or "nothing") is what both must return; the model forest must
           pass the extracted well-formedness check wf_forestb, the hypothesis of the theorems.
 """
 import json
+import os
 import random
 
 import lib
@@ -475,7 +493,7 @@ def features(schema, dump):
 def check_batch(res, schemas, rnd, budget, stats):
     opts = "-"
     go1 = lib.run_go([sg.go_case(sc, opts="f") for sc in schemas])
-    work = []
+    work, rejected, rich = [], [], {}
     for sc, line in zip(schemas, go1):
         st, canon, j = sg.canon_go(line)
         stats["status"][st] = stats["status"].get(st, 0) + 1
@@ -484,6 +502,8 @@ def check_batch(res, schemas, rnd, budget, stats):
                           dict(kind="impl", schema=sc, impl=line[:2000]))
             continue
         if st != "ok":
+            if id(sc) in stats["constructed"]:
+                rejected.append((sc, line))
             continue
         run = j["runs"][-1]
         stats["impl_lookups"] += run["findcount"]
@@ -494,6 +514,8 @@ def check_batch(res, schemas, rnd, budget, stats):
             stats["features"][k] = stats["features"].get(k, 0) + v
         qs = queries_for(sc, run, rnd, budget)
         work.append((sc, qs, canon))
+        ft = features(sc, run)
+        rich[id(sc)] = sum(1 for k in ("augmented", "in_implicit_case", "in_rpc_io") if ft[k] > 0)
     go2 = lib.run_go([go_find_case(sc, opts, qs) for sc, qs, _ in work])
     ml_cases, parsed = [], []
     for (sc, qs, _), line in zip(work, go2):
@@ -622,6 +644,251 @@ def check_batch(res, schemas, rnd, budget, stats):
             res.violation("forests differ after the lookups (on-demand input/output): impl=%s model=%s" % ((canon or st)[:200], mforest[:200]),
                           dict(rep, impl=canon, model=mforest))
         stats["tied"] += 1
+        if not bad and len(stats["pool"]) < 400:
+            stats["pool"].append((sc, qs, gres, rich.get(id(sc), 0)))
+    # module sets of the constructed families are valid by construction: when the implementation rejects one that the
+    # model processes, an augment's target -- the absolute schema path of an existing node -- was not found
+    if rejected:
+        for (sc, line), mline in zip(rejected, lib.run_ml([ml_find_case(sc, opts, [], []) for sc, _ in rejected])):
+            if mline.startswith("ok wf="):
+                errs = []
+                try:
+                    errs = json.loads(line)["runs"][-1]["errors"]
+                except Exception:
+                    pass
+                res.violation("a constructed module set that the model processes cleanly (every augment path names an "
+                              "existing node) is rejected by the implementation: %s" % "; ".join(errs[:2])[:300],
+                              dict(kind="rejected", schema=sc, errors=errs[:5]))
+            stats["constructed_rejected_by_both"] += 0 if mline.startswith("ok wf=") else 1
+
+
+# ------------------------------------------------------------------ big module sets (implementation-side oracle)
+FILL = "zzf"
+
+
+def filler_nodes(kind, count, mix_rnd=None):
+    """count statements that convert to about `count` entries: leaves, uses of an empty grouping (the grouping is added by
+    with_filler), containers holding one leaf (two entries each), or a mix"""
+    out = []
+    i = 0
+    while count > 0:
+        k = kind if kind != "mix" else mix_rnd.choice(["leaf", "leaf", "uses", "cont"])
+        if k == "leaf":
+            out.append(_lf("%s%d" % (FILL, i)))
+            count -= 1
+        elif k == "uses":
+            out.append(("uses", FILL + "g"))
+            count -= 1
+        else:
+            out.append(("container", "%s%d" % (FILL, i), None, [_lf("l")]))
+            count -= 2
+        i += 1
+    return out
+
+
+def with_filler(schema, spec):
+    """the module set with `count` extra converted nodes that have fresh names and are siblings of existing nodes (or live
+    in a module of their own), so that every position and every lookup of the original set is unchanged.
+    spec = dict(where, module, cont, kind, count, seed): where = 'top' (body of `module`) | 'cont' (inside the top-level
+    container/list `cont` of `module`) | 'first' / 'last' (a new unrelated module whose name sorts before / after all
+    others; Process converts the modules in the order of their names)"""
+    rnd = random.Random(spec.get("seed", 0))
+    fill = filler_nodes(spec["kind"], spec["count"], rnd)
+    grp = [("grouping", 99000, FILL + "g", [])] if any(x[0] == "uses" for x in fill) else []
+    out = []
+    for m in schema:
+        if spec["where"] in ("top", "cont") and m["name"] == spec["module"]:
+            m = dict(m)
+            if spec["where"] == "top":
+                m["body"] = list(m["body"]) + grp + fill
+            else:
+                body = []
+                for n in m["body"]:
+                    if n[0] in ("container", "list") and n[1] == spec["cont"]:
+                        n = n[:-1] + (list(n[-1]) + fill,)
+                    body.append(n)
+                m["body"] = body + grp
+        out.append(m)
+    if spec["where"] in ("first", "last"):
+        name = fill_module_name(spec)
+        box = ("container", "box", None, fill if spec.get("cont") else [_lf("inbox")])
+        body = grp + [box] + ([] if spec.get("cont") else fill) + [
+            ("choice", "zch", None, None, None, [_lf("zsh"), ("container", "zsc", None, [_lf("l")]), ("case", "zcs", [_lf("zcl")])]),
+            ("rpc", False, "zop", [_lf("i")], None), _lf("own")]
+        out.append(_m(name, name, "urn:" + name, body=body, augments=[("/%s:box" % name, [_lf("zaug")]), ("/%s:zch" % name, [_lf("zag")]),
+                                                                      ("/%s:zop/%s:output" % (name, name), [_lf("zo")])]))
+        if spec.get("importer"):
+            out = [dict(m, imports=list(m["imports"]) + [(FILL + "p", name)]) if m["name"] == spec["importer"] else m for m in out]
+    return out
+
+
+def fill_module_name(spec):
+    return ("A0" if spec["where"] == "first" else "zzzz9") + FILL
+
+
+def fill_module_positions():
+    """(steps, kind) of the nodes of the padding module's processed tree apart from the padding itself"""
+    C = lambda *xs: tuple(("C", x) for x in xs)
+    return [(C("box"), "Directory"), (C("box", "zaug"), "Leaf"), (C("zch"), "Choice"), (C("zch", "zsh"), "Case"),
+            (C("zch", "zsh", "zsh"), "Leaf"), (C("zch", "zsc"), "Case"), (C("zch", "zsc", "zsc"), "Directory"),
+            (C("zch", "zsc", "zsc", "l"), "Leaf"), (C("zch", "zcs"), "Case"), (C("zch", "zcs", "zcl"), "Leaf"),
+            (C("zch", "zag"), "Case"), (C("zch", "zag", "zag"), "Leaf"), (C("zop"), "Directory"),
+            (C("zop") + (("I",),), "Input"), (C("zop") + (("I",), ("C", "i")), "Leaf"), (C("zop") + (("O",),), "Output"),
+            (C("zop") + (("O",), ("C", "zo")), "Leaf"), (C("own"), "Leaf")]
+
+
+ENTRY_CACHE_MARKS = [1 << 16]          # sizes around which the family is placed (powers of two a memo might be bounded by)
+
+
+def big_specs(rnd, tier, pool):
+    """(index into pool, spec): sets with augments, implicit cases and rpc input/output get filler at every kind of
+    place, in counts just below, at and above the marks"""
+    marks = ENTRY_CACHE_MARKS if tier == "quick" else ENTRY_CACHE_MARKS + [1 << 17]
+    out = []
+    idx = list(range(len(pool)))
+    rnd.shuffle(idx)
+    idx.sort(key=lambda i: -min(3, pool[i][3]))          # richest sets first
+    counts = []
+    for mk in marks:
+        counts += [mk - rnd.randint(200, 400), mk + rnd.randint(0, 40), mk + rnd.randint(300, 5000)]
+    if tier != "quick":
+        counts += [1000, 20000, marks[0] + 1, marks[0] * 3]
+    wheres = ["first", "cont", "top", "last"]
+    kinds = ["leaf", "uses", "mix", "cont"]
+    rnd.shuffle(wheres)
+    rnd.shuffle(kinds)
+    for k, cnt in enumerate(counts):
+        if not idx:
+            break
+        i = idx[k % len(idx)]
+        sc = pool[i][0]
+        where = wheres[k % len(wheres)]
+        tops = [m for m in sc if m["belongs"] is None]
+        m = rnd.choice(tops)
+        conts = [n[1] for n in m["body"] if n[0] in ("container", "list")]
+        if where == "cont" and not conts:
+            withc = [(x, [n[1] for n in x["body"] if n[0] in ("container", "list")]) for x in tops]
+            withc = [(x, c) for x, c in withc if c]
+            if withc:
+                m, conts = rnd.choice(withc)
+            else:
+                where = "top"
+        out.append((i, dict(where=where, module=m["name"], cont=(rnd.choice(conts) if where == "cont" else
+                                                                   (rnd.random() < 0.5 if where in ("first", "last") else None)),
+                            kind=kinds[k % len(kinds)], count=cnt, seed=rnd.randrange(1 << 30),
+                            importer=rnd.choice(tops)["name"] if where in ("first", "last") and rnd.random() < 0.8 else None)))
+    return out
+
+
+def filler_queries(schema, spec, rnd):
+    """lookups of the padding nodes and of the nodes of the padding module, expectation by construction"""
+    return fill_module_queries(spec, rnd) + fill_node_queries(schema, spec, rnd)
+
+
+def fill_module_queries(spec, rnd):
+    if spec["where"] not in ("first", "last"):
+        return []
+    mn = fill_module_name(spec)
+    pos = fill_module_positions()
+    qs = []
+    starts = [((mn, ()), mn)] + [((mn, st), mn) for st, _ in rnd.sample(pos, 3)]
+    if spec.get("importer"):
+        starts.append(((spec["importer"], ()), FILL + "p"))
+    for st, kind in pos:
+        want = "%s:%s:%s" % (show_pos(mn, st), sg.hx(step_name(st[-1])), kind)
+        for start, pfx in starts:
+            path = "/" + "/".join(pfx + ":" + step_name(x) for x in st)
+            qs.append(dict(kind="fillmod-abs", go=start, ml=start, path=path, want=want))
+        i = rnd.randrange(len(st))
+        bad = [mn + ":" + step_name(x) for x in st]
+        bad[i] = mn + ":" + BAD
+        qs.append(dict(kind="fillmod-bad", go=(mn, ()), ml=(mn, ()), path="/" + "/".join(bad), want="-"))
+        frm = rnd.choice(pos)[0]
+        k = 0
+        while k < len(frm) and k < len(st) and frm[k] == st[k]:
+            k += 1
+        parts = [".."] * (len(frm) - k) + [step_name(x) for x in st[k:]]
+        if parts:
+            qs.append(dict(kind="fillmod-rel", go=(mn, frm), ml=(mn, frm), path="/".join(parts), want=want))
+    return qs
+
+
+def fill_node_queries(schema, spec, rnd):
+    if spec["kind"] not in ("leaf", "mix", "cont"):
+        return []
+    big = with_filler(schema, spec)
+    if spec["where"] in ("top", "cont"):
+        m = [x for x in big if x["name"] == spec["module"]][0]
+        base = () if spec["where"] == "top" else (("C", spec["cont"]),)
+        sibs = m["body"] if spec["where"] == "top" else [n for n in m["body"] if n[0] in ("container", "list") and n[1] == spec["cont"]][0][-1]
+    else:
+        m = [x for x in big if x["name"] == fill_module_name(spec)][0]
+        base = (("C", "box"),) if spec.get("cont") else ()
+        sibs = [n for n in m["body"] if n[0] == "container" and n[1] == "box"][0][3] if spec.get("cont") else m["body"]
+    named = [n for n in sibs if n[0] in ("leaf", "container") and n[1].startswith(FILL)]
+    if not named:
+        return []
+    qs = []
+    pfx, mn = m["prefix"], m["name"]
+    pick = [named[0], named[-1]] + [rnd.choice(named) for _ in range(6)]
+    for n in pick:
+        st = base + (("C", n[1]),)
+        kind = "Leaf" if n[0] == "leaf" else "Directory"
+        want = "%s:%s:%s" % (show_pos(mn, st), sg.hx(n[1]), kind)
+        path = "/" + "/".join(pfx + ":" + step_name(x) for x in st)
+        o = rnd.choice(named)
+        qs.append(dict(kind="fill-abs", go=(mn, ()), ml=(mn, ()), path=path, want=want))
+        qs.append(dict(kind="fill-abs", go=(mn, base + (("C", o[1]),)), ml=(mn, ()), path=path, want=want))
+        qs.append(dict(kind="fill-rel", go=(mn, base + (("C", o[1]),)), ml=(mn, ()), path="../" + n[1], want=want))
+        qs.append(dict(kind="fill-bad", go=(mn, ()), ml=(mn, ()), path=path + "x-" + BAD, want="-"))
+        if n[0] == "container":
+            qs.append(dict(kind="fill-rel", go=(mn, st + (("C", "l"),)), ml=(mn, ()), path="../../" + o[1],
+                           want="%s:%s:%s" % (show_pos(mn, base + (("C", o[1]),)), sg.hx(o[1]), "Leaf" if o[0] == "leaf" else "Directory")))
+    return qs
+
+
+def check_big(res, rnd, tier, stats, pool):
+    """implementation only: the model has no memo tables and no notion of size, so what a module set's SIZE does to the
+    lookups is outside it.  Module sets whose lookups were tied to the model above are given tens of thousands of extra
+    nodes with fresh names beside the existing ones (or in a module of their own); every lookup must return what it
+    returned without them (position recovered through Parent pointers and the identity of the roots collected once after
+    Process), lookups of the extra nodes what they name by construction, and the harness' sweep over the trees
+    (find17Sweep: absolute path of a node from the root entry, the node itself and a sibling subtree; '..' up to the
+    root; '../name') must be clean."""
+    specs = big_specs(rnd, tier, pool)
+    cases = []
+    for i, spec in specs:
+        sc, qs, _, _ = pool[i]
+        fq = filler_queries(sc, spec, rnd)
+        cases.append((i, spec, fq, go_find_case(with_filler(sc, spec), "b%d" % (1 if tier != "quick" else 5), list(qs) + fq)))
+    outs = lib.run_sharded([os.path.join(lib.HGO, "harness"), "run"], [c[3] for c in cases], shards=max(1, len(cases)))
+    for (i, spec, fq, _), line in zip(cases, outs):
+        sc, qs, base, _ = pool[i]
+        rep = dict(kind="big", schema=sc, fill=spec, queries=[dict(x, go=list(x["go"]), ml=list(x["ml"])) for x in qs])
+        if not line.startswith("{"):
+            res.violation("find17 (big module set, %s) crashed on the implementation: %s" % (spec, line[:300]), rep)
+            continue
+        j = json.loads(line)
+        if j["runs"][-1]["errors"] or any(l.startswith("err") for l in j["loads"]):
+            res.violation("a module set that processes cleanly does not with %d extra nodes (%s): %s"
+                          % (spec["count"], spec, (j["runs"][-1]["errors"] or j["loads"])[:2]), rep)
+            continue
+        stats["big_sets"] += 1
+        stats["big_nodes"] += j.get("nodes", 0)
+        stats["big_lookups"] += j.get("sweepcount", 0) + len(j["find"])
+        got = [r.split("|", 1)[1] for r in j["find"]]
+        bad = 0
+        if len(got) != len(qs) + len(fq) and not j.get("sweepviol"):
+            res.violation("find17 (big module set) answered %d of %d queries" % (len(got), len(qs) + len(fq)), rep)
+        for x, w, g in zip(list(qs) + fq, list(base) + [x["want"] for x in fq], got):
+            if g != w and bad < 2:
+                bad += 1
+                res.violation("with %d extra nodes (%s %s, kind %s) in the module set, Find(%r) from %s returned %s; the path names %s"
+                              % (spec["count"], spec["where"], spec["module"] if spec["where"] in ("top", "cont") else "module",
+                                 spec["kind"], x["path"], x["go"], g, w), dict(rep, query=dict(x, go=list(x["go"]), ml=list(x["ml"])), impl=g))
+        for v in (j.get("sweepviol") or [])[:2]:
+            res.violation("with %d extra nodes (%s, kind %s) in the module set: %s" % (spec["count"], spec["where"], spec["kind"], v),
+                          dict(rep, sweepviol=j["sweepviol"]))
 
 
 # ------------------------------------------------------------------ pinned revisions (implementation only)
@@ -780,8 +1047,136 @@ def late_augment_schemas(rnd, n):
     return out
 
 
-def gen_schemas(rnd, n):
+def choice_in_choice_schemas(rnd, n):
+    """a choice grafted DIRECTLY below a choice (RFC 7950: a choice is a shorthand case too; the grammar does not let a
+    module write it in place, so it gets there by an augment whose target is a choice and whose body is a choice, or a
+    uses of a grouping with a choice at its top level): host choices at the module top, in containers, lists, rpc input,
+    notifications and inside an explicit case of another choice; the grafted choice alone or beside leaves, cases and a
+    second choice; its members shorthand leaves/containers/lists and explicit cases; grafted by another module, by the
+    module itself or by its submodule; optionally a further link that targets the grafted choice through its implicit
+    case and grafts a choice (or a leaf) again"""
+    out = []
+    for _ in range(n):
+        uid = [0]
+
+        def nm(stem):
+            uid[0] += 1
+            return "%s%d" % (stem, uid[0])
+
+        def members(lo=1):
+            ms = []
+            for _ in range(rnd.randint(lo, 3)):
+                ms.append(rnd.choice([_lf(nm("sl")), _lf(nm("sl")), ("case", nm("cs"), [_lf(nm("cl")), _lf(nm("cl"))]),
+                                      ("container", nm("sc"), None, [_lf(nm("l"))]),
+                                      ("list", nm("li"), None, None, None, None, [_lf(nm("k"))])]))
+            return ms
+
+        def choice(lo=1):
+            return ("choice", nm("ch"), None, None, None, members(lo))
+        # hosts: (node to put into t, path of the host choice)
+        hosts, body = [], []
+        kinds = ["top", "cont", "list", "rpc", "case", "notif", "shorthand"]
+        rnd.shuffle(kinds)
+        for hk in kinds[:rnd.randint(2, 4)]:
+            h = choice(lo=0)
+            if hk == "top":
+                body.append(h)
+                hosts.append([h[1]])
+            elif hk == "cont":
+                c = nm("c")
+                body.append(("container", c, None, [h, _lf(nm("pl"))]))
+                hosts.append([c, h[1]])
+            elif hk == "list":
+                c = nm("li")
+                body.append(("list", c, None, None, None, None, [_lf(nm("k")), h]))
+                hosts.append([c, h[1]])
+            elif hk == "rpc":
+                r = nm("op")
+                io = rnd.choice(["input", "output"])
+                body.append(("rpc", False, r, [h] if io == "input" else None, [h] if io == "output" else None))
+                hosts.append([r, io, h[1]])
+            elif hk == "case":          # the host is a choice nested in an explicit case of another choice
+                oc, cs = nm("och"), nm("ocs")
+                body.append(("choice", oc, None, None, None, [("case", cs, [h, _lf(nm("cl"))]), _lf(nm("sl"))]))
+                hosts.append([oc, cs, h[1]])
+            elif hk == "notif":
+                nt = nm("nt")
+                body.append(("notification", nt, [h]))
+                hosts.append([nt, h[1]])
+            else:                       # ... in a shorthand container of another choice (path crosses an implicit case)
+                oc, sc = nm("och"), nm("sc")
+                body.append(("choice", oc, None, None, None, [("container", sc, None, [h])]))
+                hosts.append([oc, sc, sc, h[1]])
+        body.append(_lf("tstart"))
+        t = _m("t", "t", "urn:t", body=body)
+        sub = None
+        if rnd.random() < 0.3:
+            sub = _m("tsub", "t", "", belongs="t", body=[_lf(nm("subl"))])
+            t["includes"] = ["tsub"]
+        gm = _m("gm", "gm", "urn:gm", body=[])
+        a = _m("a", "a", "urn:a", imports=[("t", "t"), ("gm", "gm")], body=[_lf("start")])
+        c = _m("c", "c", "urn:c", imports=[("t", "t"), ("a", "a")], body=[_lf("cstart")])
+        gid = [20]
+        chained = rnd.random() < 0.5
+
+        def grouping(owner, gbody):
+            gid[0] += 1
+            g = nm("g")
+            owner["body"].append(("grouping", gid[0], g, gbody))
+            return g
+        for hp in hosts:
+            who = rnd.choice([a, a, a, t] + ([sub] if sub else []))
+            pfx = lambda m, tgt: m["prefix"] if (m is tgt or (m["belongs"] and tgt is t)) else tgt["name"]
+            path = "/" + "/".join(pfx(who, t) + ":" + x for x in hp)
+            inner = choice()
+            how = rnd.random()
+            extra = rnd.choice([[], [], [_lf(nm("al"))], [choice()]])
+            if how < 0.4:
+                if rnd.random() < 0.3:
+                    extra = extra + [("case", nm("acs"), [_lf(nm("cl"))])]
+                ab = [inner] + extra
+            elif how < 0.8:
+                owner = who if rnd.random() < 0.5 else gm
+                if who is t or who is sub:
+                    owner = who                      # t does not import gm
+                g = grouping(owner, [inner] + extra)
+                ab = [("uses", g if owner is who else "gm:" + g)]
+            else:                                    # a grouping that uses a grouping whose top level is a choice
+                owner = who
+                g0 = grouping(owner, [inner])
+                g = grouping(owner, [("uses", g0)] + extra)
+                ab = [("uses", g)]
+            rnd.shuffle(ab)
+            who["augments"].append((path, ab))
+            # the processed position of the grafted choice: host / implicit case inner / inner
+            wp = who if who["belongs"] is None else t
+            if chained and rnd.random() < 0.6:
+                # a further link: another module (or the same) reaches the grafted choice through its implicit case
+                m2 = rnd.choice([c, c, wp]) if wp is not t else rnd.choice([c, a])
+                st = [pfx(m2, t) + ":" + x for x in hp] + [pfx(m2, wp) + ":" + inner[1]] * 2
+                tail = rnd.random()
+                if tail < 0.5:
+                    m2["augments"].append(("/" + "/".join(st), [choice()] + rnd.choice([[], [_lf(nm("al"))]])))
+                else:
+                    sh = [x for x in inner[5] if x[0] != "case"]
+                    if sh:
+                        k = rnd.choice(sh)[1]
+                        m2["augments"].append(("/" + "/".join(st + [pfx(m2, wp) + ":" + k]), [_lf(nm("into"))]))
+                    else:
+                        m2["augments"].append(("/" + "/".join(st), [_lf(nm("al"))]))
+        mods = [gm, t] + ([sub] if sub else []) + [a, c]
+        if rnd.random() < 0.5:
+            mods.reverse()
+        out.append(mods)
+    return out
+
+
+def gen_schemas(rnd, n, constructed=None):
     out = late_augment_schemas(rnd, max(10, n // 10))
+    cc = choice_in_choice_schemas(rnd, max(12, n // 10))
+    if constructed is not None:
+        constructed.update(id(x) for x in cc)
+    out += cc
     for i in range(n):
         r = rnd.random()
         if r < 0.5:
@@ -797,15 +1192,20 @@ def run(res, tier, seed, proof):
     rnd = random.Random(seed)
     n = 140 if tier == "quick" else 2500
     budget = 330 if tier == "quick" else 600
-    stats = dict(status={}, impl_lookups=0, features={}, queries={}, tied=0, revision_sets=0, revision_lookups=0, late_sets=0, path_sets=0, getmodule_sets=0)
-    schemas = feature_schemas() + gen_schemas(rnd, n)
+    stats = dict(status={}, impl_lookups=0, features={}, queries={}, tied=0, revision_sets=0, revision_lookups=0, late_sets=0, path_sets=0, getmodule_sets=0,
+                 constructed=set(), constructed_rejected_by_both=0,
+                 pool=[], big_sets=0, big_nodes=0, big_lookups=0)
+    schemas = feature_schemas() + gen_schemas(rnd, n, stats["constructed"])
     for i in range(0, len(schemas), 400):
         check_batch(res, schemas[i:i + 400], rnd, budget, stats)
     check_revisions(res, rnd, tier, stats)
+    pool = stats.pop("pool")
+    check_big(res, rnd, tier, stats, pool)
+    stats.pop("constructed")
     clean = stats["status"].get("ok", 0)
     nq = sum(stats["queries"].values())
     cov = dict(
-        evaluations=stats["impl_lookups"] + nq + stats["revision_lookups"], distinct_nontrivial=nq,
+        evaluations=stats["impl_lookups"] + nq + stats["revision_lookups"] + stats["big_lookups"], distinct_nontrivial=nq,
         rule="module sets from schema_gen.random_schema (three knob settings) plus two hand-written feature sets; "
              "for every set that processes cleanly: the harness' pointer-identity lookups (option f) and, tied to the "
              "model, every node's absolute path from every (sub)module that names its tree, bad-step variants, relative "
@@ -813,7 +1213,8 @@ def run(res, tier, seed, proof):
         exhaustive=False, module_sets=len(schemas), clean=clean, clean_ratio=round(clean / max(1, len(schemas)), 3),
         distribution=dict(status=stats["status"], features=stats["features"], queries=stats["queries"],
                           impl_pointer_lookups=stats["impl_lookups"], tied_sets=stats["tied"],
-                          late_load_sets=stats["late_sets"], search_path_sets=stats["path_sets"], getmodule_sets=stats["getmodule_sets"], pinned_revision_sets=stats["revision_sets"], pinned_revision_lookups=stats["revision_lookups"]),
+                          late_load_sets=stats["late_sets"], search_path_sets=stats["path_sets"], getmodule_sets=stats["getmodule_sets"], big_sets=stats["big_sets"], big_set_nodes=stats["big_nodes"], big_set_lookups=stats["big_lookups"],
+                          pinned_revision_sets=stats["revision_sets"], pinned_revision_lookups=stats["revision_lookups"]),
         samples=[sg.render_module(m)[:300] for m in schemas[2][:2]],
     )
     if clean * 10 < len(schemas) * 6:
@@ -823,6 +1224,10 @@ def run(res, tier, seed, proof):
                    "abstract schema (schema_gen.render_module / enc_module)",
                    "the context module of a lookup is the module whose text defines the start node (reported by the "
                    "implementation as RootNode(e.Node)); the model takes it as a parameter",
+                   "size of a module set (tens of thousands of nodes, more than any bounded memo would hold): outside the "
+                   "model, which has no memo tables -- implementation-side oracle: the lookups tied to the model on the small "
+                   "set must return the same positions (pointer identity up to the roots collected once after Process) when "
+                   "the set is padded with fresh-named nodes, and find17Sweep checks the property's text on the padded trees",
                    "pinned-revision family: implementation only, expectation by construction (the core model has no revisions)",
                    "lookups starting at a submodule's own root entry are compared for absolute paths only (prefixed: start "
                    "passed to the model as the owner's root; unprefixed: start passed under the submodule's name)"]
@@ -848,10 +1253,36 @@ def replay(rep, res):
     st, canon, j = sg.canon_go(line)
     print("process:", st)
     rc = 0
+    if rep.get("kind") == "rejected":
+        m = lib.run_ml([ml_find_case(sc, "-", [], [])])[0]
+        print("model:", m[:60])
+        if st != "ok":
+            print("errors:", (j or {}).get("runs", [{}])[-1].get("errors") if isinstance(j, dict) else None)
+        return 1 if st != "ok" and m.startswith("ok wf=") else 0
     if st == "ok":
         fv = j["runs"][-1]["findviol"]
         print("findviol:", fv)
         rc = 1 if fv else 0
+    if rep.get("kind") == "big":
+        qs = [dict(x, go=(x["go"][0], tuple(tuple(s) for s in x["go"][1])), ml=(x["ml"][0], tuple(tuple(s) for s in x["ml"][1])))
+              for x in rep["queries"]]
+        print("padding:", rep["fill"])
+        g0 = lib.run_go([go_find_case(sc, "-", qs), go_find_case(with_filler(sc, rep["fill"]), "b1", qs)])
+        if not all(x.startswith("{") for x in g0):
+            print("impl:", [x[:300] for x in g0])
+            return 1
+        a, b = (json.loads(x) for x in g0)
+        for x, r1, r2 in zip(qs, a["find"], b["find"]):
+            if r1 != r2:
+                print("query %s from %s: small set=%s padded set=%s" % (x["path"], x["go"], r1, r2))
+                rc = 1
+        for v in b.get("sweepviol") or []:
+            print("sweep:", v)
+            rc = 1
+        if b["runs"][-1]["errors"]:
+            print("errors:", b["runs"][-1]["errors"][:3])
+            rc = 1
+        return rc
     if rep.get("queries"):
         qs = [dict(x, go=(x["go"][0], tuple(tuple(s) for s in x["go"][1])), ml=(x["ml"][0], tuple(tuple(s) for s in x["ml"][1])))
               for x in rep["queries"]]
